@@ -385,6 +385,14 @@ func regStd() {
 	})
 
 	// ---- net/http -----------------------------------------------------------------
+	regEnv("(*net/http.ServeMux).ServeHTTP", "mux.ServeHTTP(w, r): effect (the routes registered on that mux decide what runs)", func(ex *Executor, st *State, c *callCtx) []callResult {
+		st.Emit("Mux.ServeHTTP", []Value{c.Args[0], c.Args[1], c.Args[2]}, nil, ex.pos(c.Pos))
+		return one(st, nil)
+	})
+	regEnv("(*net/http.ServeMux).Handle", "mux.Handle(pattern, h): effect (registration)", func(ex *Executor, st *State, c *callCtx) []callResult {
+		st.Emit("Mux.Handle", []Value{c.Args[0], c.Args[1], c.Args[2]}, nil, ex.pos(c.Pos))
+		return one(st, nil)
+	})
 	regEnv("(net/http.ResponseWriter).WriteHeader", "w.WriteHeader(code): effect", func(ex *Executor, st *State, c *callCtx) []callResult {
 		st.Emit("WriteHeader", []Value{c.Recv, c.Args[0]}, nil, ex.pos(c.Pos))
 		return one(st, nil)
